@@ -4,7 +4,8 @@
    other variables and constants are Trace::constant).  Result: (number derivative) per output.
    The harness runs every program through all ownership forms and the other operand kind (six
    runs), through Trace::derivative(closure, x), and through Record in reverse mode, and demands
-   that the derivative equals derivatives().at(seeded variable) exactly."""
+   that the derivative equals derivatives().at(seeded variable) exactly.
+   (5 2 seed body outputs): float oracle on f64 (see tools/props/c04.py), flags (1 1 1)."""
 import random
 from tools.vlib import sx, parse_sx
 from tools.props import c04
@@ -30,6 +31,10 @@ def from_c04(line):
 
 def gen(tier, rng):
     quick = tier == "quick"
+    # --- float oracle (see c04.py): each of the two variables seeded
+    for body in c04.float_bodies(tier, rng):
+        for seed in (0, 1):
+            yield sx([5, 2, seed, body, list(range(2, len(body)))])
     # --- exhaustive: every single instruction over {x0, x1, constant} x both seeds x both types
     for ty in (0, 1):
         for line in c04.exhaustive(1, ty):
@@ -59,7 +64,9 @@ def gen(tier, rng):
 
 
 def nontrivial(case_line, model_out):
-    """some observed output has a non-zero derivative component"""
+    """some observed output has a non-zero derivative component (float oracle cases always count)"""
+    if case_line.startswith("(5 2"):
+        return True
     try:
         for o in parse_sx(model_out):
             if o[1] not in (0, [0, 1]):
